@@ -331,7 +331,9 @@ fn gen_reader(rng: &mut Prng, profile: Profile, expected_total: usize) -> Reader
 }
 
 pub fn gen_plan(rng: &mut Prng, profile: Profile, ipv4: bool, a: &SockCfg, b: &SockCfg) -> FaultPlan {
-    let mut p = FaultPlan::perfect(rng.next_u64());
+    let plan_seed = rng.next_u64();
+    let mut p = FaultPlan::perfect(plan_seed);
+    let mut aux = Prng::new(plan_seed ^ 0x57A6_617);
     let lat = *rng.pick(&[0u64, 1, 2, 5, 10, 20, 50, 100]) * MS;
     p.latency = (lat, lat);
     match profile {
@@ -434,6 +436,11 @@ pub fn gen_plan(rng: &mut Prng, profile: Profile, ipv4: bool, a: &SockCfg, b: &S
             }
         }
     }
+    // stragglers: a few datagrams arrive long after their retransmission was triggered
+    if matches!(profile, Profile::General | Profile::Mtu) && aux.chance(0.25) {
+        p.straggler = Some((*aux.pick(&[0.005, 0.02, 0.06]), 250 * MS, *aux.pick(&[600u64, 1500, 4000]) * MS));
+        p.protect_handshake = true;
+    }
     p
 }
 
@@ -446,6 +453,29 @@ pub fn generate(case_seed: u64, profile: Profile, max_total: usize) -> Generated
     if rng.chance(0.6) {
         b.link_mtu = a.link_mtu;
     }
+    // jumbo links on both sides over a path that carries them, with loss and stragglers: size probes
+    // far larger than two segments travel next to ordinary losses, timeouts and late arrivals
+    let jumbo = {
+        let mut aux = Prng::new(case_seed ^ 0x10B0_3B0);
+        let pr = match profile {
+            Profile::General => 0.06,
+            Profile::Mtu => 0.15,
+            _ => 0.0,
+        };
+        // (experiments: UVH_JUMBO_P=1 makes every case of these profiles a jumbo case)
+        let pr = match std::env::var("UVH_JUMBO_P").ok().and_then(|v| v.parse::<f64>().ok()) {
+            Some(x) if pr > 0.0 => x,
+            _ => pr,
+        };
+        if aux.chance(pr) {
+            let m = *aux.pick(&[3000usize, 4500, 9000]);
+            a.link_mtu = Some(m);
+            b.link_mtu = Some(m);
+            Some((*aux.pick(&[0.02, 0.05, 0.12]), *aux.pick(&[0.0, 0.02, 0.08]), *aux.pick(&[400u64, 900, 2500])))
+        } else {
+            None
+        }
+    };
     if profile != Profile::General {
         a.dont_wait_for_lastack = false;
         b.dont_wait_for_lastack = false;
@@ -472,7 +502,17 @@ pub fn generate(case_seed: u64, profile: Profile, max_total: usize) -> Generated
     w0.total = w0.total.max(1);
     let r0 = gen_reader(&mut rng, profile, w1.total);
     let r1 = gen_reader(&mut rng, profile, w0.total);
-    let plan = gen_plan(&mut rng, profile, ipv4, &a, &b);
+    let mut plan = gen_plan(&mut rng, profile, ipv4, &a, &b);
+    if let Some((loss, strag, upto)) = jumbo {
+        // the path carries the jumbo datagrams: no size black hole, no EMSGSIZE
+        plan.path_mtu = None;
+        plan.path_mtu_by_src.clear();
+        plan.emsgsize_mtu_by_src.clear();
+        plan.burst = None;
+        plan.loss = loss;
+        plan.protect_handshake = true;
+        plan.straggler = if strag > 0.0 { Some((strag, 250 * MS, upto * MS)) } else { None };
+    }
     let plan_desc = plan.describe();
     Generated {
         cfg: DuplexCfg {
